@@ -58,6 +58,25 @@
 (*          nothing changed, and rb -- a NEW dump of obj made after the    *)
 (*          failed one, read back -- is one paragraph with ALL the field   *)
 (*          names of obj, as after an accepted assignment.                 *)
+(*          "merge": obj.merge_fields(key, other) in its IN-PLACE form --  *)
+(*          an entry point that ASSIGNS: the value is computed by the      *)
+(*          library from obj[key] and other[key] (other = e.m: a paragraph *)
+(*          of any class, a plain mapping, the other live object).  WHAT   *)
+(*          is computed is not this property's business (X03); e.v is the  *)
+(*          value found under key after an accepted call.  The statement   *)
+(*          requires: accepted -> e.v is stored under key, the field names *)
+(*          are the old ones (plus key at the end), e.v has none of the    *)
+(*          statement's defects (a value that has one is REJECTED,         *)
+(*          whoever computed it) and every read-back is one paragraph with *)
+(*          those names; otherwise ValueError and nothing changed.  (The   *)
+(*          3-argument form returns the value; assigning it is an ordinary *)
+(*          "assign" event.)                                               *)
+(* Same-key histories: the verdict does not depend on the value STORED     *)
+(* under the key either (Deb822ValueHist, UseExt / AppendFastPath): the    *)
+(* recorded histories assign chains of values that extend one another / are*)
+(* prefixes of one another / share a prefix, cut at every line boundary    *)
+(* (LF, CR, between CR and LF), to the SAME key; each event is judged like *)
+(* any other.                                                              *)
 (* The reference is HISTORY-FREE (Deb822ValueHist): an event is explained  *)
 (* by the class, the key and the value alone, whatever happened before --  *)
 (*   - acc agrees with Classify(v) where the statement decides ("accept" / *)
@@ -197,16 +216,29 @@ FaultChecks(e) == LET q == ps[e.obj] IN
                      <<"reject-atomic", e.items = ps>>,
                      <<"readback-ws-false", \A n \in FNames : RBof(e, n) = OneParagraph(q)>>,
                      <<"readback-default", AllNoBlank(q) => \A n \in TNames : RBof(e, n) = OneParagraph(q)>> >>
+\* merge_fields in place: the library computed the value e.v and assigned it
+HoldsField(p, k, v) == \E i \in 1..Len(p) : SameName(p[i].k, k) /\ p[i].v = v
+MergeChecks(e) == LET q == After(e) IN
+                  << <<"exception-type", e.res = IF e.acc THEN "ok" ELSE "ValueError">>,
+                     <<"reject-atomic", ~e.acc => e.items[e.obj] = ps[e.obj]>>,
+                     <<"stored", e.acc => HoldsField(e.items[e.obj], e.key, e.v)>>,
+                     <<"must-reject", e.acc => Classify(e.v) # "reject">>,
+                     <<"keys-kept", e.acc => KeysOf(e.items[e.obj]) = KeysOf(SetField(ps[e.obj], e.key, e.v))>>,
+                     <<"others-unchanged", \A o \in 1..Len(ps) : o # e.obj => e.items[o] = ps[o]>>,
+                     <<"readback-ws-false", e.acc => \A n \in FNames : RBof(e, n) = OneParagraph(q)>>,
+                     <<"readback-default", (e.acc /\ AllNoBlank(q)) => \A n \in TNames : RBof(e, n) = OneParagraph(q)>> >>
 AllChecks(e) == IF e.op = "faultdump" THEN FaultChecks(e)
+                ELSE IF e.op = "merge" THEN MergeChecks(e)
                 ELSE IF e.op = "fresh" THEN FreshChecks(e)
                 ELSE IF e.op = "build" THEN BuildChecks(e)
                 ELSE IF e.obj = 0 THEN ScratchChecks(e) ELSE Checks(e)
 Explained(e) == LET c == AllChecks(e) IN \A i \in 1..Len(c) : c[i][2]
 Reasons(e)   == LET c == AllChecks(e) IN SelectSeq([i \in 1..Len(c) |-> IF c[i][2] THEN "" ELSE c[i][1]], LAMBDA s : s # "")
 WellFormed(e) == /\ Len(e.items) = Len(ps)
-                 /\ e.op \in {"assign", "fresh", "build", "faultdump"}
+                 /\ e.op \in {"assign", "fresh", "build", "faultdump", "merge"}
                  /\ \/ e.op = "assign" /\ e.obj = 0 /\ IsMultiKeyC(e.cls, e.key)
                     \/ e.op = "assign" /\ e.obj \in 1..Len(ps) /\ e.cls = ClsOf(e.obj) /\ ~IsMultiKeyC(e.cls, e.key)
+                    \/ e.op = "merge" /\ e.obj \in 1..Len(ps) /\ e.cls = ClsOf(e.obj) /\ ~IsMultiKeyC(e.cls, e.key)
                     \/ e.op = "fresh" /\ e.obj \in 1..Len(ps) /\ e.cls = ClsOf(e.obj)
                     \/ e.op = "faultdump" /\ e.obj \in 1..Len(ps) /\ e.cls = ClsOf(e.obj) /\ ps[e.obj] # <<>> /\ e.rb.o # <<>>
                     \/ /\ e.op = "build" /\ e.obj \in 1..Len(ps) /\ e.cls = ClsOf(e.obj)
@@ -215,7 +247,7 @@ WellFormed(e) == /\ Len(e.items) = Len(ps)
 \* the transcription of the reader, evaluated on the concrete text
 ModelAgrees(e) == (e.obj # 0 /\ e.acc /\ After(e) # <<>>) =>
                   LET o == ObsAll(After(e)) IN
-                  /\ e.op = "assign" => e.items[e.obj] = SetField(ps[e.obj], e.key, e.v)
+                  /\ e.op \in {"assign", "merge"} => e.items[e.obj] = SetField(ps[e.obj], e.key, e.v)
                   /\ e.op = "build" => e.items[e.obj] = FoldM(e.m, 1, <<>>)
                   /\ RBof(e, "sF") = o["str"][FALSE]  /\ RBof(e, "sT") = o["str"][TRUE]
                   /\ RBof(e, "fF") = o["file"][FALSE] /\ RBof(e, "fT") = o["file"][TRUE]
@@ -224,6 +256,7 @@ ModelAgrees(e) == (e.obj # 0 /\ e.acc /\ After(e) # <<>>) =>
 ValidatorAgrees(e) == /\ Accept(e.v) <=> ~DefectU(e.v)
                       /\ (e.op = "assign" /\ e.obj # 0) => (e.acc <=> Accept(e.v))
                       /\ e.op = "build" => (e.acc <=> \A i \in 1..Len(e.m) : Accept(e.m[i].v))
+                      /\ (e.op = "merge" /\ e.acc) => Accept(e.v)
 
 TStep == /\ l <= Len(Tr.events)
          /\ LET e == Tr.events[l] IN
